@@ -75,6 +75,8 @@ static int32_t sp_alloc_last, sp_touched, sp_freed;
 /* ------------------------------------------------------------------ trusted stubs (listed in `assumes`) */
 void sp_sfree(void *p) { }
 void *sp_nogrow_stub(void *v, int32_t increment, int32_t itemsize) { __CPROVER_assert(0, "harness: the preallocated instruction vectors suffice"); __CPROVER_assume(0); return v; }
+/* constants of this harness are immediate (nil, booleans, small integers): the constant table is never needed */
+int32_t sp_const_stub(JanetCompiler *c, Janet x) { __CPROVER_assert(0, "harness: only immediate constants are loaded"); __CPROVER_assume(0); return 0; }
 void sp_cerror_stub(JanetCompiler *c, const char *m) { sp_errors++; c->result.status = JANET_COMPILE_ERROR; }
 void sp_error_stub(JanetCompiler *c, const uint8_t *m) { sp_errors++; c->result.status = JANET_COMPILE_ERROR; }
 void sp_ra_init_stub(JanetcRegisterAllocator *ra) { ra->max = 0; }
